@@ -1097,12 +1097,13 @@ class SortValues(BaseSetIndexSortValues):
     def _simplify_up(self, parent, dependents):
         from dask_expr._expr import Filter, Head, Tail
 
-        if isinstance(parent, Head):
+        # NFirst / NLast sort with the default position of missing values
+        if isinstance(parent, Head) and self.na_position == "last":
             return NFirst(
                 self.frame, n=parent.n, _columns=self.by, ascending=self.ascending
             )
 
-        if isinstance(parent, Tail):
+        if isinstance(parent, Tail) and self.na_position == "last":
             return NLast(
                 self.frame, n=parent.n, _columns=self.by, ascending=self.ascending
             )
